@@ -70,6 +70,7 @@ type fakeIdp struct {
 	issuedPairs   [][2]string
 	tokenDuration time.Duration
 	sidRequired   bool
+	fixedSid      string
 	seq           int
 	inflight      int
 	maxInflight   int
@@ -155,8 +156,12 @@ func (ip *fakeIdp) authorize(loc *url.URL) (code string, req *authReq, err error
 
 func (ip *fakeIdp) parseAuth(q url.Values) *authReq {
 	ip.seq++
+	sid := "sid-" + strconv.Itoa(ip.seq)
+	if ip.fixedSid != "" { // the provider keeps one session per user agent: a second login lands on the same sid
+		sid = ip.fixedSid
+	}
 	return &authReq{Params: q, Nonce: q.Get("nonce"), Challenge: q.Get("code_challenge"), Redirect: q.Get("redirect_uri"), ClientID: q.Get("client_id"),
-		Acr: q.Get("acr_values"), State: q.Get("state"), Sid: "sid-" + strconv.Itoa(ip.seq)}
+		Acr: q.Get("acr_values"), State: q.Get("state"), Sid: sid}
 }
 
 func (ip *fakeIdp) par(w http.ResponseWriter, r *http.Request) {
